@@ -85,7 +85,7 @@ Lemma rmdir_if_empty_false f d f' :
   rmdir_if_empty f d = (f', false) -> f' = f /\ ~ (fs_get f d = Some FDir /\ dir_empty f d = true).
 Proof.
   unfold rmdir_if_empty. intros H. split.
-  - destruct (fs_get f d) as [[h|]|]; [inversion H; reflexivity | | inversion H; reflexivity].
+  - destruct (fs_get f d) as [[h| |t]|]; [inversion H; reflexivity | | inversion H; reflexivity | inversion H; reflexivity].
     destruct (dir_empty f d); inversion H. reflexivity.
   - intros [Hg He]. rewrite Hg, He in H. discriminate.
 Qed.
